@@ -7,7 +7,7 @@ Definitions (all computable):
 * `heads nul sid node`  rule ids reachable at the node's own start position; `sid` is a pseudo id
                         standing for the skip type `G.skipped` (we use `G.rules.length`, which is
                         not a rule), emitted wherever an implicit skip may run at the start position
-* `repsOK nul node`     every repetition / `AtomicRepeat` body inside the node is non-nullable
+* `repsOK nul node`     every unbounded repetition / `AtomicRepeat` body inside the node is non-nullable
 * `NulOK`, `NoLeftRecBy`, `NoLeftRec`, `Progressing`   the three hypotheses on a `NodeGrammar`
 * `depthN`, `maxDepth`, `rankBound`, `fuelBound`        the explicit fuel bound
 * `wfCheck`             a decision procedure that computes candidate `nul` / `rank` and checks the
@@ -73,7 +73,7 @@ def heads (nul : RuleId → Bool) (sid : RuleId) : Node → List RuleId
   | .seq sk items => headsSeq nul sid sk items
   | .choice alts => headsAll nul sid alts
   | .opt n => heads nul sid n
-  | .rep _ _ _ n => heads nul sid n
+  | .rep sk _ _ n => heads nul sid n ++ (if nullable nul n then skipHead sid sk else [])
   | .atomicRepeat n => heads nul sid n
   | .pos n => heads nul sid n
   | .neg n => heads nul sid n
@@ -92,12 +92,13 @@ def headsAll (nul : RuleId → Bool) (sid : RuleId) : List Node → List RuleId
 end
 
 mutual
-/-- Every repetition body inside the node is non-nullable. -/
+/-- Every unbounded repetition body (`max = none`, and every `AtomicRepeat` body) inside the node is
+non-nullable; a bounded repetition may have a nullable body. -/
 def repsOK (nul : RuleId → Bool) : Node → Bool
   | .seq _ items => repsOKAll nul items
   | .choice alts => repsOKAll nul alts
   | .opt n => repsOK nul n
-  | .rep _ _ _ n => !nullable nul n && repsOK nul n
+  | .rep _ _ max n => (max.isSome || !nullable nul n) && repsOK nul n
   | .atomicRepeat n => !nullable nul n && repsOK nul n
   | .pos n => repsOK nul n
   | .neg n => repsOK nul n
@@ -111,12 +112,13 @@ def repsOKAll (nul : RuleId → Bool) : List Node → Bool
 end
 
 mutual
-/-- Nesting depth of a type expression (leaves have depth 1). -/
+/-- Nesting depth of a type expression (leaves have depth 1), plus the maxima of its bounded
+repetitions (their loops need that many iterations of budget). -/
 def depthN : Node → Nat
   | .seq _ items => depthNList items + 1
   | .choice alts => depthNList alts + 1
   | .opt n => depthN n + 1
-  | .rep _ _ _ n => depthN n + 1
+  | .rep _ _ max n => depthN n + 1 + max.getD 0
   | .atomicRepeat n => depthN n + 1
   | .pos n => depthN n + 1
   | .neg n => depthN n + 1
@@ -523,7 +525,7 @@ theorem nullable_sound (G : NodeGrammar) (uni : Uni) (nul : RuleId → Bool) (hN
 /-! ### structural facts about the analysis -/
 
 theorem depthN_pos (x : Node) : 1 ≤ depthN x := by
-  cases x <;> simp [depthN]
+  cases x <;> simp [depthN] <;> omega
 
 theorem depthN_mem {x : Node} : ∀ {xs : List Node}, x ∈ xs → depthN x ≤ depthNList xs := by
   intro xs
@@ -679,6 +681,31 @@ theorem repLoop_ne_oof {α} (unit : Nat → Inp → M → R α) (min : Nat) (max
         · exact s1
         · omega
 
+/-- A bounded repetition stops at its maximum: a budget above `max - idx` is never exhausted. -/
+theorem repLoop_ne_oof_bounded {α} (unit : Nat → Inp → M → R α) (hadv : ∀ j, AdvFn (unit j)) (min mx : Nat) :
+    ∀ b idx i m acc, idx ≤ mx → mx < b + idx →
+      (∀ j i' m', i'.rest.length ≤ i.rest.length → unit j i' m' ≠ .oof) →
+      repLoop unit min (some mx) b idx i m acc ≠ .oof := by
+  intro b
+  induction b with
+  | zero => intro idx i m acc h1 h2; omega
+  | succ b ih =>
+    intro idx i m acc h1 h2 hu
+    unfold repLoop
+    split
+    · split <;> exact nofun
+    · next hne =>
+      have hlt : idx < mx := by
+        rcases Nat.lt_or_ge idx mx with h | h
+        · exact h
+        · exact absurd (by rw [Nat.le_antisymm h1 h]) hne
+      split
+      · next h1' => exact absurd h1' (restoreOnNone_ne_oof (hu idx i m (Nat.le_refl _)))
+      · split <;> exact nofun
+      · next i1 m1 a1 h1' =>
+        have e1 := (hadv idx _ _ _ _ _ (restoreOnNone_ok h1')).len_le
+        exact ih _ _ _ _ (by omega) (by omega) (fun j i' m' h => hu j i' m' (by omega))
+
 theorem arrayLoop_ne_oof {α} (f : Inp → M → R α) (hadv : AdvFn f) :
     ∀ c i m acc, (∀ i' m', i'.rest.length ≤ i.rest.length → f i' m' ≠ .oof) →
       arrayLoop f c i m acc ≠ .oof := by
@@ -823,60 +850,84 @@ theorem parse_step
       · exact nofun
     | rep sk min max x =>
       simp only [parse]
-      simp only [repsOK, Bool.and_eq_true, Bool.not_eq_true'] at hr
+      simp only [repsOK, Bool.and_eq_true, Bool.or_eq_true, Bool.not_eq_true'] at hr
       simp only [depthN] at hn sub
       simp only [heads] at hsame
       have hdx := depthN_pos x
+      have hsx : Lvl rank L k (heads nul G.sid x) i :=
+        hsame.mono (Nat.le_refl _) (fun r hr => List.mem_append.mpr (Or.inl hr))
       have hbody : ∀ i' m', Lvl rank L k (heads nul G.sid x) i' → parse G uni n inh x i' m' ≠ .oof :=
         fun i' m' hl' => sub inh x i' m' (by omega) hr.2 hl'
-      have hstrict := nullable_sound G uni nul hN n inh x hr.1
-      have hunitst : ∀ j, StrictFn (repUnitP (parse G uni n false G.skipped) (parse G uni n inh x)
-          (defaultSkipVal G) (skipCount sk inh) j) := by
-        intro j i0 m0 i' m' a hh
-        unfold repUnitP at hh
-        split at hh
-        · split at hh
-          · cases hh
-          · cases hh
-          · next i2 m2 v h2 => injection hh with h0; subst h0; exact hstrict _ _ _ _ _ h2
-        · split at hh
-          · cases hh
-          · cases hh
+      have hunitadv : ∀ j, AdvFn (repUnitP (parse G uni n false G.skipped) (parse G uni n inh x)
+          (defaultSkipVal G) (skipCount sk inh) j) :=
+        fun j => repUnitP_adv _ _ (parse_adv G uni n false G.skipped) (parse_adv G uni n inh x) _ _ j
+      -- a unit does not run out of fuel wherever both the skip and the body are at an admissible level
+      have hunit : ∀ j i' m', Lvl rank L k (skipHead G.sid sk) i' → Lvl rank L k (heads nul G.sid x) i' →
+          repUnitP (parse G uni n false G.skipped) (parse G uni n inh x) (defaultSkipVal G) (skipCount sk inh) j i' m' ≠ .oof := by
+        intro j i' m' hls hlx
+        unfold repUnitP
+        split
+        · split
+          · next h1 => exact absurd h1 (hbody _ _ hlx)
+          · exact nofun
+          · exact nofun
+        · split
+          · next h1 => exact absurd h1 (hskl sk inh _ _ hls)
+          · exact nofun
           · next i1 m1 s1 h1 =>
-            split at hh
-            · cases hh
-            · cases hh
-            · next i2 m2 v h2 =>
-              injection hh with h0; subst h0
-              have e1 := (hskadv _ _ _ _ _ _ h1).len_le
-              have s2 := hstrict _ _ _ _ _ h2
-              omega
+            have e1 := (hskadv _ _ _ _ _ _ h1).len_le
+            split
+            · next h2 => exact absurd h2 (hbody _ _ (hlx.mono e1 (fun _ h => h)))
+            · exact nofun
+            · exact nofun
       have hloop : repLoop (repUnitP (parse G uni n false G.skipped) (parse G uni n inh x)
           (defaultSkipVal G) (skipCount sk inh)) min max n 0 i m [] ≠ .oof := by
-        refine repLoop_ne_oof _ min max hunitst n 0 i m [] (by omega) ?_
-        intro j i' m' hj
-        unfold repUnitP
-        rcases hj with ⟨rfl, rfl, rfl⟩ | hj
-        · simp only [if_true]
-          split
-          · next h1 => exact absurd h1 (hbody _ _ hsame)
-          · exact nofun
-          · exact nofun
-        · have hsm : ∀ l, Lvl rank L k l i' := fun l => hsame.of_lt hj
-          split
-          · split
-            · next h1 => exact absurd h1 (hbody _ _ (hsm _))
+        cases hx : nullable nul x with
+        | false =>
+          have hstrict := nullable_sound G uni nul hN n inh x hx
+          have hunitst : ∀ j, StrictFn (repUnitP (parse G uni n false G.skipped) (parse G uni n inh x)
+              (defaultSkipVal G) (skipCount sk inh) j) := by
+            intro j i0 m0 i' m' a hh
+            unfold repUnitP at hh
+            split at hh
+            · split at hh
+              · cases hh
+              · cases hh
+              · next i2 m2 v h2 => injection hh with h0; subst h0; exact hstrict _ _ _ _ _ h2
+            · split at hh
+              · cases hh
+              · cases hh
+              · next i1 m1 s1 h1 =>
+                split at hh
+                · cases hh
+                · cases hh
+                · next i2 m2 v h2 =>
+                  injection hh with h0; subst h0
+                  have e1 := (hskadv _ _ _ _ _ _ h1).len_le
+                  have s2 := hstrict _ _ _ _ _ h2
+                  omega
+          refine repLoop_ne_oof _ min max hunitst n 0 i m [] (by omega) ?_
+          intro j i' m' hj
+          rcases hj with ⟨rfl, rfl, rfl⟩ | hj
+          · unfold repUnitP
+            simp only [if_true]
+            split
+            · next h1 => exact absurd h1 (hbody _ _ hsx)
             · exact nofun
             · exact nofun
-          · split
-            · next h1 => exact absurd h1 (hskl sk inh _ _ (hsm _))
-            · exact nofun
-            · next i1 m1 s1 h1 =>
-              have e1 := (hskadv _ _ _ _ _ _ h1).len_le
-              split
-              · next h2 => exact absurd h2 (hbody _ _ ((hsm (heads nul G.sid x)).mono e1 (fun _ h => h)))
-              · exact nofun
-              · exact nofun
+          · exact hunit j i' m' (hsame.of_lt hj) (hsame.of_lt hj)
+        | true =>
+          have hm : max.isSome = true := by
+            rcases hr.1 with h | h
+            · exact h
+            · rw [hx] at h; cases h
+          obtain ⟨mx, rfl⟩ := Option.isSome_iff_exists.mp hm
+          simp only [Option.getD_some] at hn
+          refine repLoop_ne_oof_bounded _ hunitadv min mx n 0 i m [] (Nat.zero_le _) (by omega) ?_
+          intro j i' m' hle'
+          refine hunit j i' m' (hsame.mono hle' (fun r hr => ?_)) (hsx.mono hle' (fun _ h => h))
+          simp only [hx, if_true, List.mem_append]
+          exact Or.inr hr
       split
       · next h1 => exact absurd h1 hloop
       · exact nofun
